@@ -140,12 +140,21 @@ def run(ctx, chk, tier="quick"):
                  ("x = last knot", {"xmin": 0, "x": 1, "xmax": 1}, "xmax"),
                  ("x > last knot", {"xmin": 0, "xmax": 1, "x": 2}, "xmax")]
 
+        dom_names = {}
+        for st_ in ast.walk(call.node):
+            if isinstance(st_, ast.Assign) and isinstance(st_.targets[0], ast.Tuple) and len(st_.targets[0].elts) == 2 \
+                    and isinstance(st_.value, ast.Call) and dotted_name(st_.value.func) == "self.domain" \
+                    and all(isinstance(e, ast.Name) for e in st_.targets[0].elts):
+                dom_names = {st_.targets[0].elts[0].id: "xmin", st_.targets[0].elts[1].id: "xmax"}
+
         def sym_of(node):
             s = _tck_end(node, tck_attr)
             if s:
                 return s
             if isinstance(node, ast.Name) and node.id == xparam:
                 return "x"
+            if isinstance(node, ast.Name) and node.id in dom_names:
+                return dom_names[node.id]     # (first knot, last knot): Spline.domain is checked under C14.O3
             return None
 
         # every bound the argument is clamped against must be the first or the last knot
@@ -219,10 +228,16 @@ def _integrate(ctx, chk, mod, tck_attr):
     dom_ok = False
     if dom is not None:
         rets = [n for n in ast.walk(dom.node) if isinstance(n, ast.Return)]
+        ends = None
         if len(rets) == 1 and isinstance(rets[0].value, ast.Tuple) and len(rets[0].value.elts) == 2:
-            dom_ok = [_tck_end(e, tck_attr) for e in rets[0].value.elts] == ["xmin", "xmax"]
-        chk.ob("C14.O3", dom_ok, where_of(dom, dom.node), "domain() returns %s" % (ast.unparse(rets[0].value) if rets else "?"),
-               "(first knot, last knot)", key="Spline.domain|ends")
+            dflow = Flow.of(dom)
+            ends = [_tck_end(dflow.expand(e), tck_attr) for e in rets[0].value.elts]
+            dom_ok = ends == ["xmin", "xmax"]
+        if ends is None or None in ends:
+            chk.indeterminate("C14.O3", where_of(dom, dom.node), "domain() = %s: not two elements of the knot vector" % (ast.unparse(rets[0].value) if rets else "?"))
+        else:
+            chk.ob("C14.O3", dom_ok, where_of(dom, dom.node), "domain() returns %s = (%s, %s)" % (ast.unparse(rets[0].value), ends[0], ends[1]),
+                   "(first knot, last knot)", key="Spline.domain|ends")
 
     class Bad(Exception):
         pass
@@ -281,6 +296,13 @@ def _integrate(ctx, chk, mod, tck_attr):
             if isinstance(fn, ast.Attribute) and dotted_name(fn) == "self.integrate" and len(args) == 2 \
                     and args[0] is not None and args[1] is not None:
                 return run_cell(cell, args[0], args[1], depth=evl.env.get("__depth__", 0) + 1)
+            # another method of the same class (a helper the integral was split into)
+            if isinstance(fn, ast.Attribute) and isinstance(fn.value, ast.Name) and fn.value.id == "self" \
+                    and ctx.repo.has_func("spline.Spline.%s" % fn.attr) and fn.attr not in ("domain", "__call__", "from_points") \
+                    and all(a is not None for a in args) and not call.keywords:
+                hm = ctx.func("spline.Spline.%s" % fn.attr)
+                if len(hm.params) == len(args) + 1:
+                    return run_cell(cell, None, None, depth=evl.env.get("__depth__", 0) + 1, method=hm, argvals=args)
             if isinstance(fn, ast.Attribute) and dotted_name(fn) == "self.domain" and not call.args:
                 return None
             return None
@@ -288,10 +310,10 @@ def _integrate(ctx, chk, mod, tck_attr):
         ev.apply = apply
         return ev
 
-    def run_cell(cell, va, vb, depth=0):
+    def run_cell(cell, va, vb, depth=0, method=None, argvals=None):
         if depth > 2:
             raise Undecided("unbounded recursion")
-        env = {pa: va, pb: vb}
+        env = {pa: va, pb: vb} if method is None else dict(zip(method.params[1:], argvals))
         ev = make_eval(cell, env)
         ev.env["__depth__"] = depth
 
@@ -306,7 +328,7 @@ def _integrate(ctx, chk, mod, tck_attr):
             return None
 
         ex = CellExec(ev, on_assign_call)
-        r = ex.run(f.node.body)
+        r = ex.run((f if method is None else method).node.body)
         for st, val in ex.asserts:
             if not val:
                 raise Bad("assertion `%s` fails in this cell" % ast.unparse(st.test))
